@@ -25,7 +25,7 @@ class H(Harness):
         for i in range(n):
             tb = kcommon.gen_table(rnd, 'synchronous', maxacts=2)
             script = {'random': [rnd.randrange(0, 8) / 8.0 for _ in range(400)]}
-            out.append({'table': tb, 'dynamics': 'synchronous', 'seed': rnd.randrange(1 << 30), 'script': script})
+            out.append({'table': tb, 'dynamics': 'synchronous', 'seed': rnd.randrange(1 << 30), 'script': script, 'prerun': rnd.random() < 0.25})
         return out
 
     def execute(self, case):
